@@ -79,17 +79,17 @@ class Session:
             else:
                 # an editor opens the file with its on-disk text; the history's text is informative only
                 text = self.disk_text(rel)
-                c.did_open(self.path(rel), text)
-                self.open[rel] = text
+                self.open[rel] = text       # before sending: if the server dies on it, this is the state it died on
                 self.discarded.discard(rel)
+                c.did_open(self.path(rel), text)
                 c.quiesce()
         elif k == "change":
             rel, text = st[1], st[2]
             if rel not in self.open:
                 ok = False
             else:
-                c.did_change(self.path(rel), text)
                 self.open[rel] = text
+                c.did_change(self.path(rel), text)
         elif k == "save":
             rel = st[1]
             if rel not in self.open:
@@ -130,9 +130,9 @@ class Session:
                     self.discarded.discard(old)
                 if was_open:
                     text = self.open.pop(old)
+                    self.open[new] = text
                     c.did_close(self.path(old))
                     c.did_open(self.path(new), text)
-                    self.open[new] = text
                     c.quiesce()
         elif k == "delete":
             rel = st[1]
